@@ -97,7 +97,7 @@ def run(prog, chk):
         rem = [a for a in [i for i, e in buffer_events(w, r"this->") if e == "append"] if a not in whole] if len(sends) == 1 else []
         ok = False
         if sent and len(rem) == 1:
-            a0, a1 = [q.no_casts(w.r(x)) for x in q.call_args(w, rem[0])]
+            a0, a1 = [q.no_casts(q.xr(w, x)) for x in q.call_args(w, rem[0])]      # `rest = data + accepted` with `accepted = (usize)sent`
             dn, sn, k = w.params[0]["n"], w.params[1]["n"], sent["n"]
             ok = a0 == "(%s + %s)" % (dn, k) and a1 == "(%s - %s)" % (sn, k)
             # k is only re-defined as 0 (would-block)
@@ -143,7 +143,13 @@ def run(prog, chk):
         if v == 1:
             atoms = fin.dominating_atoms(w, w.node_pos(r))
             # the count returned by send covers the request: `sent >= size`, `size <= sent`, `!(sent < size)`, `sent == size`
-            full = any(a[0] != "case" and fin._canon(w, a[0], a[1]) in (("size", "<=", "sent"), ("sent", "==", "size"), ("size", "<", "sent")) for a in atoms)
+            defs_c = q.local_defs(w)
+            same_ = {"sent"} | set(d_["n"] for n_ in w.nodes if n_["k"] == "DeclStmt" for d_ in n_["decls"]
+                                 if d_.get("init") is not None and q.single_def(w, d_["id"], defs_c) is not None and q.no_casts(q.xr(w, d_["init"])) == "sent")
+            def _full(cn_):
+                return len(cn_) == 3 and ((cn_[0] == "size" and cn_[1] in ("<=", "<") and cn_[2] in same_) or
+                                          (cn_[1] == "==" and {cn_[0], cn_[2]} & same_ and "size" in (cn_[0], cn_[2])))
+            full = any(a[0] != "case" and _full(fin._canon(w, a[0], a[1])) for a in atoms)
             via_app = w.find_path(w.entry_pos(), {w.node_pos(r)}, avoid=q.pos_of(w, apps_all), after_src=False) is None
             if full or via_app:
                 chk.ok("C13.c", w, "return true at line %s accounts for all bytes" % w.nodes[r]["l"], w.where(r), "sent >= size" if full else "an append on every path", evals=2)
